@@ -1064,6 +1064,8 @@ def expr_fn(
             if isinstance(ret2, str):
                 return ret2
             ret = fn(ret, ret2)
+            if isinstance(ret, str):
+                return ret
         unget_token(tok)
         return ret
 
